@@ -147,7 +147,7 @@ fn transfer<W: Write + Send + 'static, R: Read + Send + 'static>(name: &str, mut
     }
 }
 
-fn body() -> Report {
+pub fn body() -> Report {
     let mut r = Report::new();
     assert!(sysx::arm(), "Syscall User Dispatch not available");
     // unix
